@@ -17,24 +17,26 @@ SPEC = dict(
          'EvalSymlinks and Stat; refused by owner / group-write / other-write / missing; sleeping 3 s past the deadline as the '
          'child itself (exec sleep), as a shell waiting for a child, with TERM/INT/HUP ignored, flooding stdout; exiting at once '
          '(status 0 or 1) or sleeping past the deadline while a background descendant holds stdout+stderr / stdout / stderr / '
-         'neither for 3 s; a descendant that lets go after 60 ms; outputs: empty, 42, 42.5 with trailing newlines, leading '
+         'neither for 3 s; exit 0 shortly before the deadline with descendants letting go shortly after it (Output returns nil after the '
+         'deadline); a descendant that lets go after 60 ms; outputs: empty, 42, 42.5 with trailing newlines, leading '
          'newlines and blank, only newlines, abc, nan, 1e999, -3, "12 34", 0x10, 8 MiB of digits, 140 kB of newlines around a '
          'digit, 300 kB of x. Timeouts 200-500 ms through util.SafeCmdExecution; the same modes through CmdSensor.GetValue and '
          'CmdFan.GetPwm/SetPwm/GetRpm with the 2 s constant of the source (four of them past that deadline). Wall clock is '
-         'measured around the call; a panic is recovered and recorded. Non-trivial = anything but "exit 0 with output"; '
+         'measured around the call (a call that exceeds the bound is repeated once on the same script and the second observation '
+         'is reported: a hang reproduces, scheduling noise does not); a panic is recovered and recorded. Non-trivial = anything but "exit 0 with output"; '
          'distinct = distinct (api, kind, status, signal, timeout, held descriptors, output, observed class).',
     assumptions=[
         'os/exec model (cmd_output): SIGKILL at the context deadline ends the child at once; its descendants are not killed; '
         'Wait blocks on the stdout/stderr copying goroutines until every holder closed the pipes; with cmd.WaitDelay = d > 0 it '
         'stops d after (child exit | deadline), whichever is first, and reports ErrWaitDelay unless the status is already an error',
         'a command that cannot be started fails at once (LookPath / fork-exec error, not an *exec.ExitError)',
-        'the permission check and the start take no time in the model; real latency is absorbed by slack_ms = 400 in the observer',
+        'the permission check and the start take no time in the model; real latency is absorbed by slack_ms = 400 of the 600 ms the observer accepts as the small margin (small_margin_ms)',
         'strconv.ParseFloat is an oracle (the harness applies the real function to the expected trimmed output)',
         'ctx.Err() == DeadlineExceeded exactly when the call returns at or after the deadline (cases stay >= 100 ms away from it)',
     ],
     trusted_base=[
         'C19_classify, C19_ok_only_if, C19_bounded, C19_source_shape, C19_unbounded/hangs_without_wait_delay: closed under the '
-        'global context; C19_bounded_callers / C19_callers_never_crash mention the kernel primitives PrimFloat.*/PrimInt63.* '
+        'global context; C19_bounded_callers / C19_within_2s_plus_margin / C19_callers_never_crash mention the kernel primitives PrimFloat.*/PrimInt63.* '
         '(through f2i and is_finite of Go/GoFloat.v) and no axiom',
         'tools/gen_exec_consts.py: regex translation of cmd.WaitDelay, of the (un)checked *exec.ExitError assertion and of the '
         'check-before-start order from internal/util/exec.go into gen/ExecConsts.v',
@@ -43,7 +45,7 @@ SPEC = dict(
     partial='C19_bounded is a theorem about the model of os/exec, not about the Go runtime or the kernel: the model cannot exhibit '
             'scheduler latency, a child in uninterruptible sleep that survives SIGKILL, a fork that itself blocks, or memory '
             'exhaustion from unbounded output (cmd.Output buffers everything the command prints before the deadline); the real '
-            'wall clock is measured by the driver with 400 ms slack.',
+            'wall clock is measured by the driver against timeout + 600 ms.',
     finding_codes={}, finding_text={},
     level_text='For every behaviour of the command (any exit status or signal, any of the start failures, never ending, descendants '
                'holding the pipes for any time or for ever, any output) and every pair of file-system states the permission check '
